@@ -100,17 +100,14 @@ fn index_doc(doc: &XmlNode) -> HashMap<usize, (String, i64)> {
     m
 }
 
-fn run_query(doc: &xml_dom::XmlDocument, expr: &str) -> (J, J) {
+fn run_query(doc: &xml_dom::XmlDocument, expr: &str, ctx: &mut xml_xpath::eval::model::Context) -> (J, J) {
     let d = doc.clone();
     let idx = match guarded(|| index_doc(&d.as_node())) {
         Ok(m) => m,
         Err(p) => return (json!({"panic": p}), json!([])),
     };
     let d2 = doc.clone();
-    let r = guarded(|| {
-        let mut ctx = xml_xpath::eval::model::Context::default();
-        xml_xpath::query(d2, expr, &mut ctx).map_err(|e| e.to_string())
-    });
+    let r = guarded(|| xml_xpath::query(d2, expr, ctx).map_err(|e| e.to_string()));
     match r {
         Err(p) => (json!({"panic": p.chars().take(80).collect::<String>()}), json!([])),
         Ok(Err(_)) => (json!({"err": 1}), json!([])),
@@ -154,7 +151,9 @@ fn has_adjacent_text(w: &World, abs: &J) -> bool {
     false
 }
 
-fn queries(w: &World, abs: &J, out: &mut dyn Write) -> usize {
+/// The live document is queried with ONE evaluation context for the whole history (`live_ctx`): whatever a context
+/// remembers must not outlive an edit.  The re-parsed copy gets a fresh one.
+fn queries(w: &World, abs: &J, out: &mut dyn Write, live_ctx: &mut xml_xpath::eval::model::Context) -> usize {
     if has_adjacent_text(w, abs) {
         return 0;
     }
@@ -172,8 +171,8 @@ fn queries(w: &World, abs: &J, out: &mut dyn Write) -> usize {
     };
     let mut k = 0;
     for expr in BATTERY {
-        let (live, idx) = run_query(&doc, expr);
-        let (rep, _) = run_query(&re, expr);
+        let (live, idx) = run_query(&doc, expr, live_ctx);
+        let (rep, _) = run_query(&re, expr, &mut Default::default());
         writeln!(out, "{}", json!({"event": "query", "expr": expr, "live": live, "re": rep, "idx": idx, "text": text})).unwrap();
         k += 1;
     }
@@ -262,6 +261,7 @@ pub fn record(args: &[String]) -> i32 {
         writeln!(out, "{}", json!({"event": "reset", "history": h})).unwrap();
         let mut pre = w.project();
         let mut hist: Vec<J> = vec![];
+        let mut live_ctx = xml_xpath::eval::model::Context::default();
         for _ in 0..len {
             let c = random_call(&w, &mut rng);
             heartbeat(|| json!({"event": "crash", "call": c, "calls": hist}).to_string());
@@ -272,7 +272,7 @@ pub fn record(args: &[String]) -> i32 {
             out.flush().unwrap();
             steps += 1;
             if with_q && state_only(&post) != state_only(&pre) {
-                nq += queries(&w, &post, &mut *out);
+                nq += queries(&w, &post, &mut *out, &mut live_ctx);
             }
             pre = post;
         }
@@ -305,12 +305,23 @@ pub fn rerun(args: &[String]) -> i32 {
         watchdog_start(wd, 20, arg_flag(args, "--sync"));
     }
     heartbeat(|| json!({"event": "crash", "call": ev["call"], "calls": hist}).to_string());
-    for c in hist.as_array().cloned().unwrap_or_default() {
-        let _ = w.exec_mut(&c);
+    let mut live_ctx = xml_xpath::eval::model::Context::default();
+    let mut before = w.project();
+    let calls = hist.as_array().cloned().unwrap_or_default();
+    for (ci, c) in calls.iter().enumerate() {
+        let _ = w.exec_mut(c);
+        if ev["event"] == "query" && ci + 1 < calls.len() {
+            // as in the recording: the battery ran, on the one context, after every call that changed the state
+            let after = w.project();
+            if state_only(&after) != state_only(&before) {
+                queries(&w, &after, &mut std::io::sink(), &mut live_ctx);
+            }
+            before = after;
+        }
     }
     let pre = w.project();
     if ev["event"] == "query" {
-        queries(&w, &pre, &mut *out);
+        queries(&w, &pre, &mut *out, &mut live_ctx);
     } else {
         let outc = w.exec_mut(&ev["call"]);
         let post = w.project();
